@@ -391,7 +391,94 @@ pub fn bisim_one(rep: &Report, pats: &[Vec<u8>], kind: Kind, ci: bool, thorough:
             return;
         }
     }
+    // the documented use of `build_from_noncontiguous`: the derived automaton takes its semantics
+    // from the NFA, whatever the (default-configured) deriving builder says
+    if only.is_none() {
+        if let Built::NC(nnfa) = &ra {
+            let derived: Vec<(&str, Result<Built, String>)> = vec![
+                ("dfa::Builder::new().build_from_noncontiguous", aho_corasick::dfa::Builder::new().build_from_noncontiguous(nnfa).map(Built::D).map_err(|e| e.to_string())),
+                ("dfa::Builder(start_kind Both, no byte classes).build_from_noncontiguous", aho_corasick::dfa::Builder::new().start_kind(aho_corasick::StartKind::Both).byte_classes(false).build_from_noncontiguous(nnfa).map(Built::D).map_err(|e| e.to_string())),
+                ("contiguous::Builder::new().build_from_noncontiguous", aho_corasick::nfa::contiguous::Builder::new().build_from_noncontiguous(nnfa).map(Built::C).map_err(|e| e.to_string())),
+            ];
+            for (name, d) in derived {
+                if let Ok(bb) = d {
+                    let cfg = Cfg { engine: if matches!(bb, Built::D(_)) { crate::eng::Engine::LowDfa } else { crate::eng::Engine::LowContig }, sk: if name.contains("Both") { crate::eng::StartKindC::B } else if matches!(bb, Built::D(_)) { crate::eng::StartKindC::U } else { crate::eng::StartKindC::B }, ..reference };
+                    with_low(&ra, &mut |a| {
+                        with_low(&bb, &mut |b| {
+                            if a.match_kind() != b.match_kind() {
+                                rep.fail(Fail { key: format!("bisim:derived-kind:{}:{}", name, kind.name()), what: format!("{} of a {} NFA for {} reports match kind {:?}", name, kind.name(), show_pats(pats), b.match_kind()), argv: vec![] });
+                            }
+                            bisim_pair(rep, &reference, a, &cfg, b, pats);
+                        });
+                    });
+                }
+            }
+        }
+    }
     let _ = Built::top;
+}
+
+/// SC-std on long failure chains: patterns a, aa, ..., a^K (every pattern a suffix of the next).
+/// After reading a^e the state lists exactly min(e, K) patterns, longest first — checked through
+/// the low-level API for every e <= K + 40, for K beyond any list-length threshold.
+pub fn nested(args: &Args) -> Report {
+    let rep = Report::new(
+        "nested",
+        "patterns a^1..a^K for K in {40, 1100, 2100} x standard kind x {noncontiguous, contiguous, DFA}: after a^e the match list is a^min(e,K), ..., a^1 (ids in that order); plus overlapping search on a^(K+40) counted against the closed form".into(),
+        "case = (K, configuration, prefix length e)".into(),
+    );
+    let ks: Vec<usize> = if args.thorough() { vec![40, 1100, 2100] } else { vec![40, 1100] };
+    for k in ks {
+        let pats: Vec<Vec<u8>> = (1..=k).map(|n| vec![b'a'; n]).collect();
+        for (ci, cfg) in cfg_set("low", Kind::Std, false, false).into_iter().step_by(2).enumerate() {
+            if !cfg.supports(false) || (k > 1500 && cfg.engine == crate::eng::Engine::LowDfa) {
+                continue;
+            }
+            let b = match catch_unwind(AssertUnwindSafe(|| build(&cfg, &pats))) {
+                Ok(Ok(b)) => b,
+                _ => {
+                    rep.fail(Fail { key: format!("nested:build:{}:{}", k, cfg.encode()), what: format!("building {} nested patterns [{}] failed or panicked", k, cfg.encode()), argv: vec!["nested".into()] });
+                    continue;
+                }
+            };
+            with_low(&b, &mut |a| {
+                let mut s = match a.start_state(false) {
+                    Ok(s) => s,
+                    Err(_) => return,
+                };
+                for e in 1..=(k + 40) {
+                    s = a.next_state(false, s, b'a');
+                    rep.case(true);
+                    let want = e.min(k);
+                    let n = if a.is_match(s) { a.match_len(s) } else { 0 };
+                    let mut ok = n == want;
+                    if ok {
+                        for i in [0usize, 1, want / 2, want.saturating_sub(2), want - 1] {
+                            if i < want && a.match_pattern(s, i) != want - 1 - i {
+                                ok = false;
+                            }
+                        }
+                    }
+                    if !ok {
+                        rep.fail(Fail { key: format!("nested:{}:{}", k, cfg.encode()), what: format!("patterns a^1..a^{} [{}]: after a^{} the state lists {} patterns, expected {} (a^{} first, a^1 last)", k, cfg.encode(), e, n, want, want), argv: vec!["nested".into()] });
+                        return;
+                    }
+                }
+            });
+            // the overlapping API on the whole haystack: sum over e of min(e, K) matches
+            if k > 100 && ci % 3 != 0 {
+                continue;
+            }
+            let hay = vec![b'a'; k + 40];
+            let total: usize = (1..=k + 40).map(|e| e.min(k)).sum();
+            rep.case(true);
+            match catch_unwind(AssertUnwindSafe(|| b.try_find_overlapping_iter(&hay, 0, hay.len(), false))) {
+                Ok(Ok(v)) if v.len() == total => {}
+                other => rep.fail(Fail { key: format!("nested:ov:{}:{}", k, cfg.encode()), what: format!("patterns a^1..a^{} [{}]: overlapping search on a^{} yields {:?} matches, expected {}", k, cfg.encode(), k + 40, other.map(|r| r.map(|v| v.len())), total), argv: vec!["nested".into()] }),
+            }
+        }
+    }
+    rep
 }
 
 pub fn bisim(args: &Args) -> Report {
